@@ -119,7 +119,8 @@ class Agg:
         self.f = f
 
     def getk(self, k):
-        return self.f[k]
+        f = self.f
+        return f[k] if k < len(f) else None
 
     def setk(self, k, v):
         f = self.f
